@@ -369,14 +369,41 @@ func runC04(c *Ctx) {
 			}
 		}
 		validateParam := applyRKC.Params[len(applyRKC.Params)-1]
+		if bt, isB := validateParam.Type().Underlying().(*types.Basic); !isB || bt.Kind() != types.Bool {
+			// split form: the function always validates and hands the writes to an unvalidated entry
+			// (new since the anchor snapshot) that only it and applyAccountRemove may call
+			var holders []*ssa.Function
+			for _, h := range regionFuncs(applyRKC)[1:] {
+				n := 0
+				for _, f := range sf {
+					n += len(FieldWrites([]*ssa.Function{h}, f))
+				}
+				if n > 0 && h.Parent() == nil {
+					holders = append(holders, h)
+				}
+			}
+			sinks = append(sinks, CallSinks(applyRKC, CalleeFn(holders...), false)...)
+			c.RequireGate("C04.2-validate-before-mutate", applyRKC, GErrNil("ValidateReadKeyChange()==nil", CalleeIs(vm)), sinks, "ACL state mutation")
+			for _, cs := range Callers(prodFuncs(p), CalleeFn(holders...)) {
+				top := TopFunc(cs.Fn)
+				ok := top == applyRKC || top.Name() == "applyAccountRemove"
+				c.Check(ok, "C04.2-validate-before-mutate", FuncName(cs.Fn)+"|applyReadKeyChange(validate)", p.Pos(InstrPos(cs.Instr)), "the unvalidated read-key-change entry is called only by applyReadKeyChange (after validation) and by applyAccountRemove, whose validator already ends in validateReadKeyChange")
+			}
+			validateParam = nil
+		}
 		skip := GCmp("validate parameter == false", func(a Atom) (bool, bool) {
 			if a.Op != token.ILLEGAL || a.X != ssa.Value(validateParam) {
 				return false, false
 			}
 			return true, false
 		})
-		c.RequireAnyGate("C04.2-validate-before-mutate", applyRKC, []Gate{GErrNil("ValidateReadKeyChange()==nil", CalleeIs(vm)), skip}, nil, sinks, "ACL state mutation", nil, false)
+		if validateParam != nil {
+			c.RequireAnyGate("C04.2-validate-before-mutate", applyRKC, []Gate{GErrNil("ValidateReadKeyChange()==nil", CalleeIs(vm)), skip}, nil, sinks, "ACL state mutation", nil, false)
+		}
 		for _, cs := range Callers(prodFuncs(p), CalleeFn(applyRKC)) {
+			if validateParam == nil {
+				break
+			}
 			args := cs.Instr.(ssa.CallInstruction).Common().Args
 			b, isConst := BoolConst(args[len(args)-1])
 			ok := isConst && (b || TopFunc(cs.Fn).Name() == "applyAccountRemove")
